@@ -551,7 +551,10 @@ int tls_sign_server_ecdh_params(const SM2_KEY *server_sign_key,
 	server_ecdh_params[1] = (uint8_t)(curve >> 8);
 	server_ecdh_params[2] = (uint8_t)curve;
 	server_ecdh_params[3] = 65;
-	sm2_z256_point_to_uncompressed_octets(point, server_ecdh_params + 4);
+	if (sm2_z256_point_to_uncompressed_octets(point, server_ecdh_params + 4) != 1) {
+		error_print();
+		return -1;
+	}
 
 	if (sm2_sign_init(&sign_ctx, server_sign_key, SM2_DEFAULT_ID, SM2_DEFAULT_ID_LENGTH) != 1
 		|| sm2_sign_update(&sign_ctx, client_random, 32) != 1
@@ -584,7 +587,10 @@ int tls_verify_server_ecdh_params(const SM2_KEY *server_sign_key,
 	server_ecdh_params[1] = (uint8_t)(curve >> 8);
 	server_ecdh_params[2] = (uint8_t)(curve);
 	server_ecdh_params[3] = 65;
-	sm2_z256_point_to_uncompressed_octets(point, server_ecdh_params + 4);
+	if (sm2_z256_point_to_uncompressed_octets(point, server_ecdh_params + 4) != 1) {
+		error_print();
+		return -1;
+	}
 
 	sm2_verify_init(&verify_ctx, server_sign_key, SM2_DEFAULT_ID, SM2_DEFAULT_ID_LENGTH);
 	sm2_verify_update(&verify_ctx, client_random, 32);
